@@ -27,6 +27,11 @@ def wr {α : Type} (a : Array α) (i : Int) (v : α) : Option (Array α) :=
 def loop {σ : Type} (lo hi : Int) (s : σ) (f : Int → σ → Option σ) : Option σ :=
   (List.range (hi - lo).toNat).foldlM (fun s (k : Nat) => f (lo + (k : Int)) s) s
 
+/-- a search loop `for (i = lo; i < hi; i++) if (c i) return …;` : was the early return taken?  Iterations after the first hit are not
+    executed (they cannot fault); `none` = a fault while evaluating `c` before any hit -/
+def loopAny (lo hi : Int) (c : Int → Option Bool) : Option Bool :=
+  (List.range (hi - lo).toNat).foldlM (fun (found : Bool) (k : Nat) => if found then some true else c (lo + (k : Int))) false
+
 /-- libc `qsort (a, n, sizeof (T), cmp)`: the first `n` cells are rearranged into an arrangement ordered by `cmp` (modelled by a
     merge sort: for a comparator that is a total preorder the ordered arrangement is unique up to the order of equal keys) -/
 def qsortM {α : Type} (a : Array α) (n : Int) (cmp : α → α → Int) : Option (Array α) :=
